@@ -664,11 +664,14 @@ terms of the model packet `p`, whose `Opts` identify nil and empty values:
 on the wire) holds a NIL slice, so the accessors see it as ABSENT; every other
 key holds its non-empty (RFC 3396-concatenated) value; an empty non-nil value
 never comes out of the decoder.  The theorems after it lift the accessor
-statements to `p`: for seven of the nine accessor families the zero-length value
-is malformed for the type and the absent default equals the malformed default,
-so nothing changes; for the parameter request list and the relay agent
-information the RFC reading of the empty value (empty list / empty map) is NOT
-what the accessor returns on a decoded packet (nil): stated as `_empty` clauses. -/
+statements to `p`, one theorem per accessor (all 29): for the types that reject
+the empty value the zero-length option gives the malformed default, which equals
+the absent default, and for strings it reads as "" like the absent option, so
+nothing changes; for the parameter request list, the relay agent information,
+the user class and the domain search list the RFC reading of the empty value
+(empty list / empty map / the fallback's single empty class / empty search list)
+is NOT what the accessor returns on a decoded packet (nil): stated as explicit
+`some [] → nil` clauses, with the non-empty hypothesis on the clause it affects. -/
 
 /-- **C17 (link to decoded packets).** -/
 theorem C17_decoded_options (q : Bytes) (p : Pkt4) (h : dec4 q = .ok p) :
@@ -816,6 +819,237 @@ there), and as nil when it came through the decoder -/
 example : Acc.parameterRequestList (GOpts.empty.update 55 (some [])) = some [] ∧
     Acc.parameterRequestList (Opts.toG ⟨fun c => if c = 55 then some [] else none⟩) = none := by
   constructor <;> decide
+
+/-! ### the other typed accessors on decoded packets
+
+Every remaining accessor, one theorem each, through the generic steps of
+Lemmas/V4ValDecoded.lean (`decoded_lift` for the types that reject the empty
+value, `decoded_lift_str` for strings, `decoded_get` where the empty value has
+an RFC reading of its own).  `p.opts.f c` is the RFC 3396 reassembly of the
+instances of option `c` in the options field (C04); `g` is the Go `Options`
+map of the decoded packet.  With the eight theorems above this covers all 29
+typed accessors of `*DHCPv4`. -/
+
+/-- single address on a decoded packet -/
+theorem C17_decoded_BroadcastAddress (q : Bytes) (p : Pkt4) (g : GOpts) (h : dec4 q = .ok p)
+    (hg : decOptsG q = some g) :
+    (∀ v x, p.opts.f Code.broadcastAddress = some v → Val4.ip v = some x → Acc.broadcastAddress g = some x) ∧
+    (∀ v, p.opts.f Code.broadcastAddress = some v → Val4.ip v = none → Acc.broadcastAddress g = none) ∧
+    (p.opts.f Code.broadcastAddress = none → Acc.broadcastAddress g = none) :=
+  decoded_lift _ Val4.ip Acc.broadcastAddress some none rfl C17_BroadcastAddress_wf C17_BroadcastAddress_bad C17_BroadcastAddress_absent h hg
+
+/-- single address on a decoded packet -/
+theorem C17_decoded_RequestedIPAddress (q : Bytes) (p : Pkt4) (g : GOpts) (h : dec4 q = .ok p)
+    (hg : decOptsG q = some g) :
+    (∀ v x, p.opts.f Code.requestedIPAddress = some v → Val4.ip v = some x → Acc.requestedIPAddress g = some x) ∧
+    (∀ v, p.opts.f Code.requestedIPAddress = some v → Val4.ip v = none → Acc.requestedIPAddress g = none) ∧
+    (p.opts.f Code.requestedIPAddress = none → Acc.requestedIPAddress g = none) :=
+  decoded_lift _ Val4.ip Acc.requestedIPAddress some none rfl C17_RequestedIPAddress_wf C17_RequestedIPAddress_bad C17_RequestedIPAddress_absent h hg
+
+/-- address list on a decoded packet -/
+theorem C17_decoded_NTPServers (q : Bytes) (p : Pkt4) (g : GOpts) (h : dec4 q = .ok p)
+    (hg : decOptsG q = some g) :
+    (∀ v xs, p.opts.f Code.ntpServers = some v → Val4.ips v = some xs → Acc.ntpServers g = some (xs.map some)) ∧
+    (∀ v, p.opts.f Code.ntpServers = some v → Val4.ips v = none → Acc.ntpServers g = none) ∧
+    (p.opts.f Code.ntpServers = none → Acc.ntpServers g = none) :=
+  decoded_lift _ Val4.ips Acc.ntpServers (fun xs => some (xs.map some)) none rfl
+    C17_NTPServers_wf C17_NTPServers_bad C17_NTPServers_absent h hg
+
+/-- address list on a decoded packet -/
+theorem C17_decoded_NetBIOSNameServers (q : Bytes) (p : Pkt4) (g : GOpts) (h : dec4 q = .ok p)
+    (hg : decOptsG q = some g) :
+    (∀ v xs, p.opts.f Code.netBIOSNameServers = some v → Val4.ips v = some xs → Acc.netBIOSNameServers g = some (xs.map some)) ∧
+    (∀ v, p.opts.f Code.netBIOSNameServers = some v → Val4.ips v = none → Acc.netBIOSNameServers g = none) ∧
+    (p.opts.f Code.netBIOSNameServers = none → Acc.netBIOSNameServers g = none) :=
+  decoded_lift _ Val4.ips Acc.netBIOSNameServers (fun xs => some (xs.map some)) none rfl
+    C17_NetBIOSNameServers_wf C17_NetBIOSNameServers_bad C17_NetBIOSNameServers_absent h hg
+
+/-- address list on a decoded packet -/
+theorem C17_decoded_DNS (q : Bytes) (p : Pkt4) (g : GOpts) (h : dec4 q = .ok p)
+    (hg : decOptsG q = some g) :
+    (∀ v xs, p.opts.f Code.dns = some v → Val4.ips v = some xs → Acc.dns g = some (xs.map some)) ∧
+    (∀ v, p.opts.f Code.dns = some v → Val4.ips v = none → Acc.dns g = none) ∧
+    (p.opts.f Code.dns = none → Acc.dns g = none) :=
+  decoded_lift _ Val4.ips Acc.dns (fun xs => some (xs.map some)) none rfl
+    C17_DNS_wf C17_DNS_bad C17_DNS_absent h hg
+
+/-- vendor class identifier (opaque octets, nothing deleted) on a decoded packet: the zero-length option reads as "" like the absent one -/
+theorem C17_decoded_ClassIdentifier (q : Bytes) (p : Pkt4) (g : GOpts) (h : dec4 q = .ok p)
+    (hg : decOptsG q = some g) :
+    (∀ v x, p.opts.f Code.classIdentifier = some v → Val4.str v = some x → Acc.classIdentifier g = x) ∧
+    (p.opts.f Code.classIdentifier = none → Acc.classIdentifier g = []) :=
+  decoded_lift_str _ Val4.str Acc.classIdentifier rfl C17_ClassIdentifier_wf C17_ClassIdentifier_absent h hg
+
+/-- string (trailing NULs deleted) on a decoded packet: the zero-length option reads as "" like the absent one -/
+theorem C17_decoded_RootPath (q : Bytes) (p : Pkt4) (g : GOpts) (h : dec4 q = .ok p)
+    (hg : decOptsG q = some g) :
+    (∀ v x, p.opts.f Code.rootPath = some v → Val4.strTrim v = some x → Acc.rootPath g = x) ∧
+    (p.opts.f Code.rootPath = none → Acc.rootPath g = []) :=
+  decoded_lift_str _ Val4.strTrim Acc.rootPath rfl C17_RootPath_wf C17_RootPath_absent h hg
+
+/-- string (trailing NULs deleted) on a decoded packet: the zero-length option reads as "" like the absent one -/
+theorem C17_decoded_Message (q : Bytes) (p : Pkt4) (g : GOpts) (h : dec4 q = .ok p)
+    (hg : decOptsG q = some g) :
+    (∀ v x, p.opts.f Code.message = some v → Val4.strTrim v = some x → Acc.message g = x) ∧
+    (p.opts.f Code.message = none → Acc.message g = []) :=
+  decoded_lift_str _ Val4.strTrim Acc.message rfl C17_Message_wf C17_Message_absent h hg
+
+/-- string (trailing NULs deleted) on a decoded packet: the zero-length option reads as "" like the absent one -/
+theorem C17_decoded_HostName (q : Bytes) (p : Pkt4) (g : GOpts) (h : dec4 q = .ok p)
+    (hg : decOptsG q = some g) :
+    (∀ v x, p.opts.f Code.hostName = some v → Val4.strTrim v = some x → Acc.hostName g = x) ∧
+    (p.opts.f Code.hostName = none → Acc.hostName g = []) :=
+  decoded_lift_str _ Val4.strTrim Acc.hostName rfl C17_HostName_wf C17_HostName_absent h hg
+
+/-- string (trailing NULs deleted) on a decoded packet: the zero-length option reads as "" like the absent one -/
+theorem C17_decoded_BootFileNameOption (q : Bytes) (p : Pkt4) (g : GOpts) (h : dec4 q = .ok p)
+    (hg : decOptsG q = some g) :
+    (∀ v x, p.opts.f Code.bootfileName = some v → Val4.strTrim v = some x → Acc.bootFileNameOption g = x) ∧
+    (p.opts.f Code.bootfileName = none → Acc.bootFileNameOption g = []) :=
+  decoded_lift_str _ Val4.strTrim Acc.bootFileNameOption rfl C17_BootFileNameOption_wf C17_BootFileNameOption_absent h hg
+
+/-- string (trailing NULs deleted) on a decoded packet: the zero-length option reads as "" like the absent one -/
+theorem C17_decoded_TFTPServerName (q : Bytes) (p : Pkt4) (g : GOpts) (h : dec4 q = .ok p)
+    (hg : decOptsG q = some g) :
+    (∀ v x, p.opts.f Code.tftpServerName = some v → Val4.strTrim v = some x → Acc.tftpServerName g = x) ∧
+    (p.opts.f Code.tftpServerName = none → Acc.tftpServerName g = []) :=
+  decoded_lift_str _ Val4.strTrim Acc.tftpServerName rfl C17_TFTPServerName_wf C17_TFTPServerName_absent h hg
+
+/-- duration on a decoded packet -/
+theorem C17_decoded_IPAddressRenewalTime (q : Bytes) (p : Pkt4) (g : GOpts) (dflt : Int)
+    (h : dec4 q = .ok p) (hg : decOptsG q = some g) :
+    (∀ v x, p.opts.f Code.renewalTime = some v → Val4.seconds v = some x → Acc.ipAddressRenewalTime g dflt = x) ∧
+    (∀ v, p.opts.f Code.renewalTime = some v → Val4.seconds v = none → Acc.ipAddressRenewalTime g dflt = dflt) ∧
+    (p.opts.f Code.renewalTime = none → Acc.ipAddressRenewalTime g dflt = dflt) :=
+  decoded_lift _ Val4.seconds (Acc.ipAddressRenewalTime · dflt) id dflt rfl (fun o v x => C17_IPAddressRenewalTime_wf o v x dflt)
+    (fun o v => C17_IPAddressRenewalTime_bad o v dflt) (fun o => C17_IPAddressRenewalTime_absent o dflt) h hg
+
+/-- duration on a decoded packet -/
+theorem C17_decoded_IPAddressRebindingTime (q : Bytes) (p : Pkt4) (g : GOpts) (dflt : Int)
+    (h : dec4 q = .ok p) (hg : decOptsG q = some g) :
+    (∀ v x, p.opts.f Code.rebindingTime = some v → Val4.seconds v = some x → Acc.ipAddressRebindingTime g dflt = x) ∧
+    (∀ v, p.opts.f Code.rebindingTime = some v → Val4.seconds v = none → Acc.ipAddressRebindingTime g dflt = dflt) ∧
+    (p.opts.f Code.rebindingTime = none → Acc.ipAddressRebindingTime g dflt = dflt) :=
+  decoded_lift _ Val4.seconds (Acc.ipAddressRebindingTime · dflt) id dflt rfl (fun o v x => C17_IPAddressRebindingTime_wf o v x dflt)
+    (fun o v => C17_IPAddressRebindingTime_bad o v dflt) (fun o => C17_IPAddressRebindingTime_absent o dflt) h hg
+
+/-- IPv6-only preferred on a decoded packet -/
+theorem C17_decoded_IPv6OnlyPreferred (q : Bytes) (p : Pkt4) (g : GOpts) (h : dec4 q = .ok p)
+    (hg : decOptsG q = some g) :
+    (∀ v x, p.opts.f Code.ipv6OnlyPreferred = some v → Val4.seconds v = some x → Acc.ipv6OnlyPreferred g = (x, true)) ∧
+    (∀ v, p.opts.f Code.ipv6OnlyPreferred = some v → Val4.seconds v = none → Acc.ipv6OnlyPreferred g = (0, false)) ∧
+    (p.opts.f Code.ipv6OnlyPreferred = none → Acc.ipv6OnlyPreferred g = (0, false)) :=
+  decoded_lift _ Val4.seconds Acc.ipv6OnlyPreferred (·, true) (0, false) rfl
+    C17_IPv6OnlyPreferred_wf C17_IPv6OnlyPreferred_bad C17_IPv6OnlyPreferred_absent h hg
+
+/-- maximum message size on a decoded packet (absent, zero-length and malformed all give the error) -/
+theorem C17_decoded_MaxMessageSize (q : Bytes) (p : Pkt4) (g : GOpts) (h : dec4 q = .ok p)
+    (hg : decOptsG q = some g) :
+    (∀ v x, p.opts.f Code.maxMessageSize = some v → Val4.u16 v = some x → Acc.maxMessageSize g = .ok x) ∧
+    (∀ v, p.opts.f Code.maxMessageSize = some v → Val4.u16 v = none → Acc.maxMessageSize g = .err) ∧
+    (p.opts.f Code.maxMessageSize = none → Acc.maxMessageSize g = .err) :=
+  decoded_lift _ Val4.u16 Acc.maxMessageSize .ok .err rfl
+    C17_MaxMessageSize_wf C17_MaxMessageSize_bad C17_MaxMessageSize_absent h hg
+
+/-- auto-configure on a decoded packet -/
+theorem C17_decoded_AutoConfigure (q : Bytes) (p : Pkt4) (g : GOpts) (h : dec4 q = .ok p)
+    (hg : decOptsG q = some g) :
+    (∀ v x, p.opts.f Code.autoConfigure = some v → Val4.u8 v = some x → Acc.autoConfigure g = (x, true)) ∧
+    (∀ v, p.opts.f Code.autoConfigure = some v → Val4.u8 v = none → Acc.autoConfigure g = (0, false)) ∧
+    (p.opts.f Code.autoConfigure = none → Acc.autoConfigure g = (0, false)) :=
+  decoded_lift _ Val4.u8 Acc.autoConfigure (·, true) (0, false) rfl
+    C17_AutoConfigure_wf C17_AutoConfigure_bad C17_AutoConfigure_absent h hg
+
+/-- subnet mask on a decoded packet -/
+theorem C17_decoded_SubnetMask (q : Bytes) (p : Pkt4) (g : GOpts) (h : dec4 q = .ok p)
+    (hg : decOptsG q = some g) :
+    (∀ v x, p.opts.f Code.subnetMask = some v → Val4.mask v = some x → Acc.subnetMask g = some x) ∧
+    (∀ v, p.opts.f Code.subnetMask = some v → Val4.mask v = none → Acc.subnetMask g = none) ∧
+    (p.opts.f Code.subnetMask = none → Acc.subnetMask g = none) :=
+  decoded_lift _ Val4.mask Acc.subnetMask some none rfl
+    C17_SubnetMask_wf C17_SubnetMask_bad C17_SubnetMask_absent h hg
+
+/-- vendor-identifying vendor class on a decoded packet -/
+theorem C17_decoded_VIVC (q : Bytes) (p : Pkt4) (g : GOpts) (h : dec4 q = .ok p)
+    (hg : decOptsG q = some g) :
+    (∀ v xs, p.opts.f Code.vivc = some v → Val4.vivc v = some xs → Acc.vivc g = some (xs.map ofSpecVIVC)) ∧
+    (∀ v, p.opts.f Code.vivc = some v → Val4.vivc v = none → Acc.vivc g = none) ∧
+    (p.opts.f Code.vivc = none → Acc.vivc g = none) :=
+  decoded_lift _ Val4.vivc Acc.vivc (fun xs => some (xs.map ofSpecVIVC)) none rfl
+    C17_VIVC_wf C17_VIVC_bad C17_VIVC_absent h hg
+
+/-- client system architecture on a decoded packet -/
+theorem C17_decoded_ClientArch (q : Bytes) (p : Pkt4) (g : GOpts) (h : dec4 q = .ok p)
+    (hg : decOptsG q = some g) :
+    (∀ v xs, p.opts.f Code.clientArch = some v → Val4.archs v = some xs → Acc.clientArch g = some xs) ∧
+    (∀ v, p.opts.f Code.clientArch = some v → Val4.archs v = none → Acc.clientArch g = none) ∧
+    (p.opts.f Code.clientArch = none → Acc.clientArch g = none) :=
+  decoded_lift _ Val4.archs Acc.clientArch some none rfl
+    C17_ClientArch_wf C17_ClientArch_bad C17_ClientArch_absent h hg
+
+/-- user class on a decoded packet: an RFC 3004 value reads as its classes, any
+other NON-EMPTY value as one class holding the whole value; the zero-length
+option 77 reads as nil, NOT as the single empty class the fallback gives an
+empty non-nil value -/
+theorem C17_decoded_UserClass (q : Bytes) (p : Pkt4) (g : GOpts) (h : dec4 q = .ok p)
+    (hg : decOptsG q = some g) :
+    (∀ v xs, p.opts.f Code.userClass = some v → Val4.userClasses v = some xs → Acc.userClass g = some xs) ∧
+    (∀ v, p.opts.f Code.userClass = some v → v ≠ [] → Val4.userClasses v = none →
+      Acc.userClass g = some [v]) ∧
+    (p.opts.f Code.userClass = some [] → Acc.userClass g = none) ∧
+    (p.opts.f Code.userClass = none → Acc.userClass g = none) := by
+  obtain ⟨hsome, hnone⟩ := decoded_get h hg Code.userClass
+  refine ⟨fun v xs hv hs => C17_UserClass_wf _ v xs (hsome v hv ?_) hs,
+    fun v hv hne hs => C17_UserClass_bad _ v (hsome v hv hne) hs,
+    fun he => C17_UserClass_absent _ (hnone (.inr he)), fun hn => C17_UserClass_absent _ (hnone (.inl hn))⟩
+  intro e; subst e; simp [Val4.userClasses] at hs
+
+/-- domain search list on a decoded packet: a NON-EMPTY value with an RFC 1035
+reading gives its names (and keeps a copy of the reassembled value), a value
+without one gives nil; the zero-length option 119 reads as nil, NOT as the
+empty search list that is the RFC reading of the empty value
+(`Val4.searchList [] []`) -/
+theorem C17_decoded_DomainSearch (q : Bytes) (p : Pkt4) (g : GOpts) (h : dec4 q = .ok p)
+    (hg : decOptsG q = some g) :
+    (∀ v ns, p.opts.f Code.domainSearch = some v → v ≠ [] → Val4.searchList v ns →
+      Acc.domainSearch g = .ok (some { original := some v, labels := ns })) ∧
+    (∀ v, p.opts.f Code.domainSearch = some v → (¬ ∃ ns, Val4.searchList v ns) →
+      Acc.domainSearch g = .ok none) ∧
+    (p.opts.f Code.domainSearch = some [] → Acc.domainSearch g = .ok none) ∧
+    (p.opts.f Code.domainSearch = none → Acc.domainSearch g = .ok none) := by
+  obtain ⟨hsome, hnone⟩ := decoded_get h hg Code.domainSearch
+  refine ⟨fun v ns hv hne hs => C17_DomainSearch_wf _ v ns (hsome v hv hne) hs, fun v hv hs => ?_,
+    fun he => C17_DomainSearch_absent _ (hnone (.inr he)),
+    fun hn => C17_DomainSearch_absent _ (hnone (.inl hn))⟩
+  by_cases hne : v = []
+  · subst hne; exact C17_DomainSearch_absent _ (hnone (.inr hv))
+  · exact C17_DomainSearch_bad _ v (hsome v hv hne) hs
+
+/-- the distinction is real for these two as well: an empty NON-nil value (only
+a caller can store one) reads as one empty class / the empty search list, the
+decoder's zero-length option as nil -/
+example : Acc.userClass (GOpts.empty.update 77 (some [])) = some [[]] ∧
+    Acc.userClass (Opts.toG ⟨fun c => if c = 77 then some [] else none⟩) = none ∧
+    Acc.domainSearch (GOpts.empty.update 119 (some [])) = .ok (some ⟨some [], []⟩) ∧
+    Acc.domainSearch (Opts.toG ⟨fun c => if c = 119 then some [] else none⟩) = .ok none ∧
+    Val4.searchList [] [] := by
+  refine ⟨by decide, by decide, by decide, by decide, Spec.Name.Names.done⟩
+
+/-- the hypotheses are satisfiable by a real datagram: header + cookie, host
+name in two RFC 3396 fragments (`0c 01 68` … `0c 01 69`) around a zero-length
+user class (`4d 00`), End.  It decodes; option 12 reassembles to "hi", option
+77 to the empty value; on the decoded packet's map HostName() is "hi" and
+UserClass() is nil. -/
+def C17_example_datagram : Bytes :=
+  List.replicate 236 0 ++ [99, 130, 83, 99, 12, 1, 104, 77, 0, 12, 1, 105, 255]
+
+set_option maxRecDepth 100000 in
+example :
+    (match dec4 C17_example_datagram with
+      | .ok p => some (p.opts.f 12, p.opts.f 77) | _ => none) = some (some [104, 105], some []) ∧
+    (decOptsG C17_example_datagram).map (fun g => (Acc.hostName g, Acc.userClass g)) =
+      some ([104, 105], none) := by
+  decide
 
 /-! ## set/get with addresses in their 16-byte IPv4-mapped form
 
